@@ -203,8 +203,10 @@ impl Scenario for HubCore {
                 other => panic!("krpmc: unknown seed {}", other),
             }
             let mut c = deploy(&cfg);
-            run_prefix(&mut c, &prefix);
-            out.push((s.to_string(), c, g.clone()));
+            match try_prefix(&mut c, &prefix) {
+                Ok(()) => out.push((s.to_string(), c, g.clone())),
+                Err(e) => eprintln!("[{}] seed {} does not exist under this configuration ({}); skipped", self.name(), s, e),
+            }
         }
         out
     }
@@ -1084,8 +1086,10 @@ fn c09_probe(c: &Chain, o: &HubObs, cx: &mut Cx) {
                     if t > cc.time {
                         cc.advance(t - cc.time);
                     }
-                    // the first unbond that arrives after the epoch: a fresh holder's single unit
-                    let rb = apply(&mut cc, &bond_st(CAROL, 10));
+                    // the first unbond that arrives after the epoch: a fresh holder's single unit (the helper bond is
+                    // sized to the current stSei rate so that it mints at least a few tokens)
+                    let need = mul_dec(4, o2.state.stsei_exchange_rate) + 10;
+                    let rb = apply(&mut cc, &bond_st(CAROL, need));
                     let ru = apply(&mut cc, &unbond(CAROL, STSEI, 1));
                     if !rb.ok() || !ru.ok() {
                         cx.viol("C09.batch_closes", "the first unbond after the epoch period fails", format!("after {} unbonded {} {}: bond {:?} unbond {:?}", u, amt, tok, rb.res.err(), ru.res.err()));
